@@ -408,11 +408,17 @@ def failure_props(f):
     if f['code'] in (211, 1606, 202, 301) and 'cancel' in f.get('sig', '') and 'C07' not in props:
         # (301: the cancellation of one RPC ended the whole tunnel - C07 says it ends that RPC)
         props.append('C07')
+    if f['code'] == 401 and f.get('b') in (1, 7) and '/fc/' in f.get('sig', '') and 'C05' not in props:
+        # with flow control, a writer (caller's or handler's SendMsg) still blocked after the tunnel ended: a stranded sender
+        props.append('C05')
+    if f['code'] == 401 and f.get('b') in (7, 11) and 'C14' not in props:
+        # a handler-side call still pending after the tunnel ended: a goroutine of the ended tunnel stays
+        props.append('C14')
     return props
 
 
 def code_props(code):
-    table = {209: ['C02', 'C17'], 1302: ['C13', 'C08'], 1307: ['C13', 'C06'], 1313: ['C13', 'C11'], 1315: ['C13', 'C11'], 1103: ['C11', 'C13'],
+    table = {903: ['C09', 'C04', 'C14'], 209: ['C02', 'C17'], 1302: ['C13', 'C08'], 1307: ['C13', 'C06'], 1313: ['C13', 'C11'], 1315: ['C13', 'C11'], 1103: ['C11', 'C13'],
              602: ['C06', 'C05'], 603: ['C06', 'C05'], 901: ['C09', 'C15'], 1104: ['C11'], 1105: ['C11'],
              1203: ['C12', 'C14'], 1204: ['C12', 'C14'],
              611: ['C06', 'C09'], 612: ['C06', 'C05'], 631: ['C06', 'C05', 'C13'], 632: ['C06', 'C05'], 633: ['C05', 'C06'],
@@ -435,6 +441,9 @@ CODE_TEXT = {
     701: 'caller observed success after cancel without handler OK', 703: 'caller operation did not return when its context was cancelled',
     704: 'handler operation still pending after the cancel notice was delivered', 802: 'handler invoked twice for one RPC', 803: 'wrong handler invoked',
     901: 'panic', 1001: 'handler started for an RPC begun after shutdown', 1002: 'RPC begun after shutdown was not refused with Unavailable',
+    1209: 'WaitForReady kept waiting although a tunnel with the key had been registered for 300 ms (waiter left on a set that is no longer the key\'s)',
+    903: 'a handler found its context still live after the Serve call of its (reverse) tunnel had returned',
+    302: 'a nested tunnel ended (or its next RPC failed) after one RPC with unencodable metadata, although its carrier survives the encode error',
     1502: 'two goroutines were inside Send / CloseSend of the carrier stream at the same time (the thread-safe wrapper was bypassed)',
     501: 'flow-controlled sender left parked although its whole window had been credited back (lost wake-up)', 902: 'live heap grew by more than 200 MiB under a hostile peer announcing huge sizes (MiB in a)',
     1003: 'tunnel ended after graceful shutdown was initiated', 1004: 'Stop returned before every Serve call had returned',
@@ -803,7 +812,7 @@ class Verdict:
                 rel = ['C15']
             else:
               rel = ['C09', 'C15'] if a['status'].startswith('panic') else \
-                  ((['C03', 'C05', 'C15'] + (['C04'] if a.get('after_tunnel_end') else []) + (['C07'] if ('cancel' in a.get('sig', '') or r['family'] in ('stress:mix', 'stress:bounded', 'stress:nested')) else [])) if a['status'].startswith('hang')
+                  ((['C03', 'C05', 'C15'] + (['C04'] if a.get('after_tunnel_end') else []) + (['C07'] if ('cancel' in a.get('sig', '') or r['family'] in ('stress:mix', 'stress:bounded', 'stress:nested')) else []) + (['C09', 'C06'] if ('/rawc/' in a.get('sig', '') or '/raws/' in a.get('sig', '')) else [])) if a['status'].startswith('hang')
                    else (['C14'] + (['C04'] if a.get('after_tunnel_end') else [])))
             if self.pid not in rel:
                 continue
